@@ -2,6 +2,7 @@
 //   family G : every grammar packet (hand-written stacks + generated (class, setter, sample) variants)
 //   family P : every ordered pair of generated setters applied to one default object of each class
 //   family H : add / remove / add-again histories (length <= 3) on every option-carrying class
+//   family N : ONE add operation repeated n = 1..300 times (counters and cached sizes crossing 255/256, 8-bit and 16-bit carries)
 #include "entry.hpp"
 #include "sermon.hpp"
 #include "explore.hpp"
@@ -79,6 +80,28 @@ static void histories(const char* cname, const std::vector<int>& types, AddFn ad
     }
 }
 
+// ---- family N: one add operation applied n times, serialized after every step (cached option sizes, element counters and length
+// octets crossing 255/256/65535). Building stops where the protocol's own limit is reached: a header that no longer fits its length field
+// (TCP/IP 60 bytes, PPPoE payload 65535) is not a packet, and an add call may refuse (any exception) - what was built before must serialize.
+template <class Q, class AddFn>
+static void repetitions(const char* cname, const std::vector<int>& types, const std::vector<int>& lens, AddFn add, uint32_t header_limit, int nmax, uint32_t base = 0, uint32_t ovh = 0) {
+    for (int t : types) for (int l : lens) {
+        std::unique_ptr<PDU> o(make_default((Q*)0));
+        for (int n = 1; n <= nmax; ++n) {
+            Q& q = static_cast<Q&>(*o);
+            try { add(q, t, l); } catch (std::exception&) { R.count("repetition_add_refused"); break; }
+            // the limit is computed here, not read from the object: a cached size that wraps (PPPoE keeps a 16-bit tag size) must not hide it
+            if (header_limit && (q.header_size() > header_limit || base + (uint64_t)n * (uint32_t)(l + ovh) > header_limit)) { R.count("repetition_stopped_at_protocol_limit"); break; }
+            std::string name = std::string("family=N class=") + cname + " type=" + std::to_string(t) + " len=" + std::to_string(l) + " n=" + std::to_string(n);
+            if (!g_only.empty() && name != g_only) continue;
+            PDU* top = wrap(o->clone());
+            PDU* last = top; while (last->inner_pdu()) last = last->inner_pdu();
+            if (last->pdu_type() != PDU::RAW) last->inner_pdu(new RawPDU(pattern(3, 0x44)));
+            check_packet(top, name); R.count("repetition_steps");
+        }
+    }
+}
+
 int main(int argc, char** argv) {
     const int NJ = 32;
     auto body = [&](int job) {
@@ -139,6 +162,19 @@ int main(int argc, char** argv) {
             if (job == 6) histories<PPPoE>("PPPoE", {0x0101, 0x0103}, [&](PPPoE& q, int t, int l) { q.add_tag(make_opt<PPPoE::tag>((PPPoE::TagTypes)t, l, data)); }, [](PPPoE&, int) {}, depth);
             if (job == 7) histories<RTP>("RTP", {1, 2}, [&](RTP& q, int t, int l) { if (l == 0 || l < 0) q.add_csrc_id(t); else if (l == 3) { q.extension_bit(1); q.add_extension_data(t); } else q.padding_size(t); },
                                             [](RTP& q, int t) { q.remove_csrc_id(t); q.remove_extension_data(t); }, depth);
+            // ---- family N (dealt by class over jobs 8..17)
+            const int NMAX = th ? 700 : 300;
+            Bytes big = pattern(255, 0x21);
+            if (job == 8) repetitions<TCP>("TCP", {2, 34}, {0, 2}, [&](TCP& q, int t, int l) { q.add_option(TCP::option((TCP::OptionTypes)t, (size_t)l, big.data())); }, 60, NMAX, 20, 2);
+            if (job == 9) repetitions<IP>("IP", {0x88, 0x07}, {0, 2}, [&](IP& q, int t, int l) { q.add_option(IP::option(IP::option_identifier((uint8_t)t), (size_t)l, big.data())); }, 60, NMAX, 20, 2);
+            if (job == 10) repetitions<DHCP>("DHCP", {12, 43}, {0, 1, 9, 255}, [&](DHCP& q, int t, int l) { q.add_option(DHCP::option((uint8_t)t, (size_t)l, big.data())); }, 0, NMAX);
+            if (job == 11) repetitions<DHCPv6>("DHCPv6", {8, 17}, {0, 1, 9, 255}, [&](DHCPv6& q, int t, int l) { q.add_option(DHCPv6::option((uint16_t)t, (size_t)l, big.data())); }, 0, NMAX);
+            if (job == 12) repetitions<ICMPv6>("ICMPv6", {5, 200}, {6, 14, 254}, [&](ICMPv6& q, int t, int l) { q.add_option(ICMPv6::option((uint8_t)t, (size_t)l, big.data())); }, 0, NMAX);
+            if (job == 13) repetitions<Dot11Beacon>("Dot11Beacon", {3, 221}, {0, 1, 9, 255}, [&](Dot11Beacon& q, int t, int l) { q.add_option(Dot11::option((uint8_t)t, (size_t)l, big.data())); }, 0, NMAX);
+            if (job == 14) repetitions<PPPoE>("PPPoE", {0x0101, 0x0105}, {0, 9, 255}, [&](PPPoE& q, int t, int l) { q.add_tag(PPPoE::tag((PPPoE::TagTypes)t, (size_t)l, big.data())); }, 65535, NMAX, 6, 4);
+            if (job == 15) repetitions<IPv6>("IPv6", {0, 60, 43}, {6, 7, 22, 254}, [&](IPv6& q, int t, int l) { q.add_header(IPv6::ext_header((uint8_t)t, (size_t)l, big.data())); }, 0, NMAX);
+            if (job == 16) repetitions<RTP>("RTP", {1}, {0, 3}, [&](RTP& q, int t, int l) { if (l == 0) q.add_csrc_id(t); else { q.extension_bit(1); q.add_extension_data(t); } }, 0, NMAX);
+            if (job == 17) repetitions<ICMP>("ICMP", {1}, {4, 7}, [&](ICMP& q, int t, int l) { q.type(ICMP::TIME_EXCEEDED); q.extensions().add_extension(ICMPExtension((uint8_t)t, (uint8_t)t)); (void)l; }, 0, th ? 300 : 100);
             if (job == 0) R.sample(jstr("family=P class=ICMPv6 a=prefix_info#0 b=mtu#0 ; family=H class=TCP ops=add34.0,rem34.0,add2.9"));
         };
     return run_main(argc, argv, NJ, NJ, body,
